@@ -7,7 +7,7 @@ the history, and the oracle is an independent linear chain-of-responsibility int
 import abc
 import random
 from dataclasses import dataclass
-from typing import List
+from typing import List, Optional
 
 from adaptix import AdornedRetort, CannotProvide, Chain, P, Provider, ProviderNotFoundError, Retort, bound, dumper, loader
 from adaptix._internal.morphing.request_cls import DumperRequest, LoaderRequest, StrictCoercionRequest
@@ -18,6 +18,7 @@ from .sig import sig_value
 
 NAME = "bussim"
 KEY_NEEDS_MINIMISATION = False   # the violation class is decided mechanically at execution time
+STABLE_KEY_FIELDS = ("class", "type", "dir", "retort")
 
 
 # ------------------------------------------------------------------------------------------------
@@ -49,17 +50,26 @@ class M:
     s: str
 
 
+@dataclass
+class RN:
+    """Self-referential model: its nested requests go through a recursion stub."""
+    v: A
+    next: Optional["RN"] = None
+
+
 ListA = List[A]
-TYPES = {"A": A, "B": B, "C1": C1, "int": int, "str": str, "M": M, "ListA": ListA}
-TNAME = {A: "A", B: "B", C1: "C1", int: "int", str: "str", M: "M", ListA: "ListA", Abs: "Abs"}
-M_FIELDS = [("x", "int"), ("a", "A"), ("s", "str")]
+TYPES = {"A": A, "B": B, "C1": C1, "int": int, "str": str, "M": M, "ListA": ListA, "RN": RN}
+TNAME = {A: "A", B: "B", C1: "C1", int: "int", str: "str", M: "M", ListA: "ListA", Abs: "Abs", RN: "RN",
+         Optional[RN]: "OptRN", type(None): "None"}
+MODELS = {"M": (M, [("x", "int"), ("a", "A"), ("s", "str")]), "RN": (RN, [("v", "A"), ("next", "OptRN")])}
+M_FIELDS = MODELS["M"][1]
 
 
 class BareRetort(AdornedRetort):
     """The facade without any builtin provider: all-decline must end in ProviderNotFoundError."""
 
 
-# stack element: (type name, field id or None, generic position or None)
+# stack element: (type name, field id or None, kind of location: "T" top-level, "F" field, "G" generic parameter)
 
 def _last(st):
     return st[-1]
@@ -91,6 +101,10 @@ PREDS = {
     "P[int]&P.x": (lambda: P[int] & P.x, lambda st: _last(st)[0] == "int" and _last(st)[1] == "x", False),
     "P[A]^P.a": (lambda: P[A] ^ P.a, lambda st: (_last(st)[0] == "A") != (_last(st)[1] == "a"), False),
     "P[ListA][A]": (lambda: P[List[A]][A], lambda st: len(st) >= 2 and st[-2][0] == "ListA" and _last(st)[0] == "A", False),
+    "RN": (lambda: RN, lambda st: _last(st)[0] == "RN", True),
+    "next": (lambda: "next", lambda st: _last(st)[1] == "next", False),
+    "P[RN].next": (lambda: P[RN].next, lambda st: len(st) >= 2 and st[-2][0] == "RN" and _last(st)[1] == "next", False),
+    "P[RN].v": (lambda: P[RN].v, lambda st: len(st) >= 2 and st[-2][0] == "RN" and _last(st)[1] == "v", False),
 }
 GROUPABLE = [k for k, v in PREDS.items() if v[2]]
 NONGROUPABLE = [k for k, v in PREDS.items() if not v[2]]
@@ -118,11 +132,12 @@ class Faulty(Provider):
                 raise ZeroDivisionError(self.idx)
             if mode == "delegate":
                 nxt = mediator.provide_from_next()
-                return lambda x, i=self.idx: nxt(x) + [["d", i]]
+                tagd = _mark("d", self.idx)
+                return lambda x: tagd(nxt(x))
             if mode == "optprobe":
                 strict = mediator.mandatory_provide(StrictCoercionRequest(loc_stack=request.loc_stack))
-                return lambda x, i=self.idx, s=strict: x + [["o", i, s]]
-            return lambda x, i=self.idx: x + [["a", i]]
+                return _mark(f"o{int(strict)}", self.idx)
+            return _mark("a", self.idx)
         return [(LoaderRequest, AlwaysTrueRequestChecker(), handler),
                 (DumperRequest, AlwaysTrueRequestChecker(), handler)]
 
@@ -130,16 +145,37 @@ class Faulty(Provider):
 def req_key(request):
     d = "L" if isinstance(request, LoaderRequest) else "D"
     st = []
-    for loc in request.loc_stack:
-        st.append((TNAME.get(loc.type, repr(loc.type)), getattr(loc, "field_id", None), getattr(loc, "generic_pos", None)))
+    for i, loc in enumerate(request.loc_stack):
+        kind = "F" if hasattr(loc, "field_id") else "G" if hasattr(loc, "generic_pos") else "T"
+        try:
+            tn = TNAME.get(loc.type, repr(loc.type))
+        except TypeError:
+            tn = repr(loc.type)
+        st.append((tn, getattr(loc, "field_id", None), kind))
     return (d, tuple(st))
 
 
+_CALLS = []   # invocations of marker functions during the current call: (tag, idx, kind of argument)
+
+
+def _argkind(x):
+    if isinstance(x, list):
+        return f"list{len(x)}"
+    return "none" if x is None else type(x).__name__
+
+
 def _mark(tag, i):
-    return lambda x: x + [[tag, i]]
+    """User function of a marker: tags list tokens (so composition order and multiplicity show in the
+    output), passes every other value through unchanged, and records that it ran."""
+    def fn(x):
+        _CALLS.append((tag, i, _argkind(x)))
+        return x + [[tag, i]] if isinstance(x, list) else x
+    return fn
 
 
-def build_item(it, log):
+def build_item(it, log, inner=None):
+    """inner: dict idx -> retort object; filled with the inner retorts built here, and consulted first
+    (so that a derived inner retort can be placed into a second outer recipe)."""
     pred = PREDS[it["pred"]][0]()
     kind = it["kind"]
     i = it["idx"]
@@ -149,19 +185,24 @@ def build_item(it, log):
         mk = loader if it["dir"] == "L" else dumper
         return mk(pred, _mark(tag, i), ch)
     if kind == "retort":
-        inner = build_retort(it["sub"], log)
-        return inner if it["pred"] == "ANY" and it.get("unbound") else bound(pred, inner)
+        if inner is not None and i in inner:
+            obj = inner[i]
+        else:
+            obj = build_retort(it["sub"], log)
+            if inner is not None:
+                inner[i] = obj
+        return obj if it["pred"] == "ANY" and it.get("unbound") else bound(pred, obj)
     return bound(pred, Faulty(i, kind, log))
 
 
-def build_retort(spec, log):
+def build_retort(spec, log, inner=None):
     """spec: {full, opts, instance: [items], classes: [[items] (own class), [items] (parent)]}"""
     base = Retort if spec["full"] else BareRetort
     cls = base
     for level, items in enumerate(reversed(spec.get("classes", []))):
-        cls = type(f"R{level}", (cls,), {"recipe": [build_item(it, log) for it in items]})
+        cls = type(f"R{level}", (cls,), {"recipe": [build_item(it, log, inner) for it in items]})
     kw = {"strict_coercion": spec["opts"]["strict_coercion"]}
-    return cls(recipe=[build_item(it, log) for it in spec["instance"]], **kw)
+    return cls(recipe=[build_item(it, log, inner) for it in spec["instance"]], **kw)
 
 
 # ------------------------------------------------------------------------------------------------
@@ -201,12 +242,28 @@ def flatten(spec):
 
 class Model:
     def __init__(self, reconsult=False, max_consult=100000):
+        self.cells = {}
         self.log = []
         self.reconsult = reconsult   # mirror of the implementation's behaviour after a failed delegation
         self.n = 0
         self.max = max_consult
 
-    def serve(self, spec, st, d, off=0):  # noqa: C901, PLR0912
+    def serve(self, spec, st, d, off=0):
+        """A fresh request (off == 0) for a location that already occurs below it on the stack is answered
+        by a late-bound stub of the answer to its first occurrence (recursion resolution)."""
+        if off != 0:
+            return self._serve(spec, st, d, off)
+        key = (id(spec), d, st[-1])
+        if list(st[:-1]).count(st[-1]) >= 1:
+            cell = self.cells.setdefault(key, {})
+            return lambda x, cell=cell: cell["fn"](x)
+        fn = self._serve(spec, st, d, 0)
+        cell = self.cells.pop(key, None)
+        if cell is not None:
+            cell["fn"] = fn
+        return fn
+
+    def _serve(self, spec, st, d, off=0):  # noqa: C901, PLR0912
         items = flatten(spec)
         for i in range(off, len(items)):
             it = items[i]
@@ -251,9 +308,10 @@ class Model:
                     if self.reconsult:
                         continue
                     raise
-                return lambda x, i=idx, nxt=nxt: nxt(x) + [["d", i]]
+                tagd = _mark("d", idx)
+                return lambda x, nxt=nxt, tagd=tagd: tagd(nxt(x))
             if kind == "optprobe":
-                return lambda x, i=idx, s=self.strict(spec, st): x + [["o", i, s]]
+                return _mark(f"o{int(self.strict(spec, st))}", idx)
             return _mark("a", idx)
         return self.tail(spec, st, d)
 
@@ -269,14 +327,15 @@ class Model:
         if not spec["full"]:
             raise NotFound
         t = st[-1][0]
-        if t in ("int", "str"):
+        if t in ("int", "str", "None"):
             return builtin_scalar(t, d, self.strict(spec, st))
-        if t == "M":
+        if t in MODELS:
+            cls, fields = MODELS[t]
             subs = {}
             failed = False
-            for fname, ftype in M_FIELDS:
+            for fname, ftype in fields:
                 try:
-                    subs[fname] = self.serve(spec, [*st, (ftype, fname, None)], d, 0)
+                    subs[fname] = self.serve(spec, [*st, (ftype, fname, "F")], d, 0)
                 except (NotFound, Terminal):
                     failed = True
             if failed:
@@ -287,12 +346,18 @@ class Model:
                 def load_m(data):
                     if not isinstance(data, dict):
                         raise _ModelLoadError
-                    return M(**{f: subs[f](data[f]) for f, _ in M_FIELDS})
+                    return cls(**{f: subs[f](data[f]) for f, _ in fields})
                 return load_m
-            return lambda obj: {f: subs[f](getattr(obj, f)) for f, _ in M_FIELDS}
+            return lambda obj: {f: subs[f](getattr(obj, f)) for f, _ in fields}
+        if t == "OptRN":
+            try:
+                el = self.serve(spec, [*st, ("RN", None, "G")], d, 0)
+            except NotFound:
+                raise Terminal from None
+            return lambda x: None if x is None else el(x)
         if t == "ListA":
             try:
-                el = self.serve(spec, [*st, ("A", None, 0)], d, 0)
+                el = self.serve(spec, [*st, ("A", None, "G")], d, 0)
             except NotFound:
                 raise Terminal from None
             if d == "L":
@@ -317,6 +382,9 @@ def token(tname, d):
         return {"x": [], "a": [], "s": []} if d == "L" else M([], [], [])
     if tname == "ListA":
         return [[], []]
+    if tname == "RN":
+        return ({"v": [], "next": {"v": [], "next": {"v": [], "next": None}}} if d == "L"
+                else RN([], RN([], RN([], None))))
     return []
 
 
@@ -328,6 +396,8 @@ def norm_out(v):
         return {k: norm_out(x) for k, x in v.items()}
     if isinstance(v, M):
         return {"__M__": {f: norm_out(getattr(v, f)) for f, _ in M_FIELDS}}
+    if isinstance(v, RN):
+        return {"__RN__": {"v": norm_out(v.v), "next": norm_out(v.next)}}
     return v
 
 
@@ -342,8 +412,9 @@ def run_real(retort, tname, d):
         return ["recursion"]
     except Exception as e:  # noqa: BLE001
         return ["exc", type(e).__name__, str(e)[:200]]
+    del _CALLS[:]
     try:
-        return ["ok", norm_out(fn(token(tname, d)))]
+        return ["ok", norm_out(fn(token(tname, d))), sorted(map(list, _CALLS))]
     except Exception:  # noqa: BLE001
         # how a call-time failure is wrapped (LoadError, AggregateLoadError around a TypeError, ...) is C04's
         # subject, not C09's: only "the composed function fails on the token" is compared
@@ -353,15 +424,16 @@ def run_real(retort, tname, d):
 def run_model(spec, tname, d, reconsult=False):
     m = Model(reconsult=reconsult)
     try:
-        fn = m.serve(spec, [(tname, None, None)], d, 0)
+        fn = m.serve(spec, [(tname, None, "T")], d, 0)
     except (NotFound, Terminal):
         return m.log, ["notfound"]
     except Crash as e:
         return m.log, ["crash", e.args[0]]
     except RecursionError:
         return m.log, ["recursion"]
+    del _CALLS[:]
     try:
-        return m.log, ["ok", norm_out(fn(token(tname, d)))]
+        return m.log, ["ok", norm_out(fn(token(tname, d))), sorted(map(list, _CALLS))]
     except Exception:  # noqa: BLE001
         return m.log, ["callfail"]
 
@@ -386,7 +458,7 @@ def gen_items(rng, n, counter, depth=0):
         it = {"idx": idx, "pred": pn, "kind": kind}
         if kind in ("plain", "first", "last"):
             it["dir"] = "L" if rng.random() < 0.7 else "D"
-        if depth == 0 and rng.random() < 0.08:
+        if depth == 0 and rng.random() < 0.10:
             it["kind"] = "retort"
             it["unbound"] = rng.random() < 0.4
             if it["unbound"]:
@@ -409,7 +481,16 @@ def gen(seed, cfg=None):
             "classes": [c for c in (gen_items(rng, n_cls1, counter), gen_items(rng, n_cls2, counter)) if c]}
     ext = gen_items(rng, rng.randint(1, 2), counter) if rng.random() < 0.3 else None
     repl = {"strict_coercion": not spec["opts"]["strict_coercion"]} if rng.random() < 0.2 else None
-    return {"engine": "bussim", "seed": seed, "spec": spec, "extend": ext, "replace": repl}
+    inner_idx = [it["idx"] for it in flatten(spec) if it["kind"] == "retort"]
+    inner_derive = None
+    if inner_idx and rng.random() < 0.6:
+        # a retort that already served as a provider is extended / replaced and placed into a second outer retort
+        inner_derive = {"idx": rng.choice(inner_idx),
+                        "extend": gen_items(rng, rng.randint(1, 2), counter, 1) if rng.random() < 0.6 else None,
+                        "replace": None}
+        if inner_derive["extend"] is None or rng.random() < 0.3:
+            inner_derive["replace"] = "flip"
+    return {"engine": "bussim", "seed": seed, "spec": spec, "extend": ext, "replace": repl, "inner_derive": inner_derive}
 
 
 # ------------------------------------------------------------------------------------------------
@@ -434,24 +515,52 @@ def derived_specs(scn):
         s = dict(scn["spec"])
         s["opts"] = {**scn["spec"]["opts"], **scn["replace"]}          # replace() changes only scalar options
         out.append(("replaced", s))
+    idv = scn.get("inner_derive")
+    if idv:
+        def derive(items):
+            res = []
+            for it in items:
+                if it["idx"] == idv["idx"] and it["kind"] == "retort":
+                    sub = dict(it["sub"])
+                    if idv.get("extend"):
+                        sub["instance"] = [*idv["extend"], *sub["instance"]]
+                    if idv.get("replace"):
+                        sub["opts"] = {"strict_coercion": not sub["opts"]["strict_coercion"]}
+                    it = {**it, "sub": sub}
+                res.append(it)
+            return res
+        if any(it["idx"] == idv["idx"] and it["kind"] == "retort" for it in flatten(scn["spec"])):
+            out.append(("inner-derived", _map_items(scn["spec"], derive)))
     return out
 
 
 def execute(scn, refs):  # noqa: C901, PLR0912
     log = []
-    base = build_retort(scn["spec"], log)
+    built_inner = {}
+    base = build_retort(scn["spec"], log, built_inner)
     retorts = {"base": base}
     if scn.get("extend"):
         retorts["extended"] = base.extend(recipe=[build_item(it, log) for it in scn["extend"]])
     if scn.get("replace"):
         retorts["replaced"] = base.replace(**scn["replace"])
     specs = dict(derived_specs(scn))
+    idv = scn.get("inner_derive")
+    if idv and "inner-derived" in specs and idv["idx"] in built_inner:
+        r2 = built_inner[idv["idx"]]           # has already served as a provider inside `base`
+        if idv.get("extend"):
+            r2 = r2.extend(recipe=[build_item(it, log) for it in idv["extend"]])
+        if idv.get("replace"):
+            sub = next(it for it in flatten(scn["spec"]) if it["idx"] == idv["idx"])["sub"]
+            r2 = r2.replace(strict_coercion=not sub["opts"]["strict_coercion"])
+        retorts["inner-derived"] = build_retort(scn["spec"], log, {idv["idx"]: r2})
+    else:
+        specs.pop("inner-derived", None)
     violations = []
     stats = {"requests": 0, "consultations": 0, "declines_consumed": 0, "delegations": 0, "crashes": 0, "terminals": 0,
              "not_found": 0, "nested_requests": 0, "reconsult_known": 0}
     mode_of = {}
     _collect_modes(scn["spec"], mode_of)
-    for it in scn.get("extend") or []:
+    for it in [*(scn.get("extend") or []), *((scn.get("inner_derive") or {}).get("extend") or [])]:
         _collect_modes_item(it, mode_of)
     order = [*retorts, "base"]    # ... and the original again (must be unchanged by extend/replace)
     first_out = {}
@@ -498,8 +607,6 @@ def execute(scn, refs):  # noqa: C901, PLR0912
                                        "expected": f"<= {bound_} consultations", "observed": len(real_log)})
         if len(violations) > 8:
             break
-    # a known-class violation must not mask another class in the same run
-    violations.sort(key=lambda v: v["class"] == "reconsult-after-failed-delegation")
     return {"violations": violations, "stats": stats}
 
 
@@ -531,7 +638,7 @@ def _by_key(log):
 
 
 def _jkey(k):
-    return k[0] + ":" + "/".join(f"{t}.{f or ''}.{'' if g is None else g}" for t, f, g in k[1])
+    return k[0] + ":" + "/".join(f"{t}.{f or ''}.{g}" for t, f, g in k[1])
 
 
 def compare(real_log, real_out, model_log, model_out):
@@ -567,6 +674,8 @@ def candidates(scn):  # noqa: C901
         yield {**scn, "extend": None}
     if scn.get("replace"):
         yield {**scn, "replace": None}
+    if scn.get("inner_derive"):
+        yield {**scn, "inner_derive": None}
     spec = scn["spec"]
     if spec.get("classes"):
         # move class recipes into the instance recipe (same flattened order)
@@ -610,6 +719,8 @@ def shape(scn):
                 for it in items]
     return {"instance": sh(scn["spec"]["instance"]), "classes": [sh(c) for c in scn["spec"].get("classes", [])],
             "extend": sh(scn["extend"]) if scn.get("extend") else None, "replace": bool(scn.get("replace")),
+            "inner_derive": ({"extend": sh(scn["inner_derive"]["extend"] or []), "replace": bool(scn["inner_derive"]["replace"])}
+                             if scn.get("inner_derive") else None),
             "full": scn["spec"]["full"]}
 
 
@@ -618,8 +729,8 @@ def prelim_key(scn, result):
     return {"class": v["class"], "type": v.get("type"), "dir": v.get("dir"), "retort": v.get("retort")}
 
 
-def finding_key(scn, result):
-    v = result["violations"][0]
+def finding_key(scn, result, v=None):
+    v = v or result["violations"][0]
     return {"class": v["class"], "type": v.get("type"), "dir": v.get("dir"), "retort": v.get("retort"), "shape": shape(scn)}
 
 
